@@ -154,3 +154,36 @@ Theorem C19_malloc_stack_refines_alloc : forall base s p q,
     (forall j, 4 <= j <= 10 -> getreg s' j = getreg s j).
 Proof. exact malloc_stack_contract. Qed.
 Print Assumptions C19_malloc_stack_refines_alloc.
+
+(* ---- a routine with a loop: the word copy used by concat and substring, for every count ------------------- *)
+From Hera.Proofs Require Import C19_Memcpy.
+
+(* placed at any address, for every state and every count R3 (no bound on the iterations: the proof is an
+   induction on the count): memory becomes the forward copy [copy]; both pointers advance by the count; the
+   counter ends at 0; control returns to PC_ret with FP restored; SP and R5..R10 are untouched; with the
+   carry-block flag on (the library's calling convention) the scratch register R11 is restored too *)
+Theorem C19_memcpy_contract : forall base s,
+  0 <= base -> base + 14 < 65536 -> List.length (regs s) = 16%nat -> pc s = base -> getreg s 0 = 0 ->
+  word (getreg s 1) -> word (getreg s 2) -> word (getreg s 3) -> word (getreg s 11) ->
+  exists n s', run_at base (memcpy_code base) n s = Some s' /\
+    mem s' = copy (mem s) (getreg s 1) (getreg s 2) (Z.to_nat (getreg s 3)) /\
+    getreg s' 1 = (getreg s 1 + getreg s 3) mod 65536 /\ getreg s' 2 = (getreg s 2 + getreg s 3) mod 65536 /\
+    getreg s' 3 = 0 /\ pc s' = getreg s 13 /\ getreg s' 14 = getreg s 12 /\ getreg s' 15 = getreg s 15 /\
+    (forall j, 5 <= j <= 10 -> getreg s' j = getreg s j) /\
+    (flag (f_cb s) = true -> getreg s' 11 = getreg s 11).
+Proof. exact memcpy_contract. Qed.
+Print Assumptions C19_memcpy_contract.
+
+(* what [copy] does: when no source word is a destination word, destination word i receives source word i,
+   and every address outside the destination keeps its contents (addresses wrap at 2^16) *)
+Theorem C19_copy_moves_the_words : forall n m s d, wf_mem m -> 0 <= s < 65536 -> 0 <= d < 65536 -> Z.of_nat n <= 65536 ->
+  (forall i j, 0 <= i < Z.of_nat n -> 0 <= j < Z.of_nat n -> (s + i) mod 65536 <> (d + j) mod 65536) ->
+  forall i, 0 <= i < Z.of_nat n -> mem_read (copy m s d n) ((d + i) mod 65536) = mem_read m ((s + i) mod 65536).
+Proof. exact copy_spec. Qed.
+Print Assumptions C19_copy_moves_the_words.
+
+Theorem C19_copy_leaves_the_rest : forall n m s d a, wf_mem m -> 0 <= s < 65536 -> 0 <= d < 65536 -> 0 <= a ->
+  (forall i, 0 <= i < Z.of_nat n -> a <> (d + i) mod 65536) ->
+  mem_read (copy m s d n) a = mem_read m a.
+Proof. exact copy_outside. Qed.
+Print Assumptions C19_copy_leaves_the_rest.
